@@ -147,3 +147,54 @@ def all_formats(d):
     out["lkcd"] = lkcd(d)
     out["sadump"] = sadump(d)
     return out
+
+
+def _find_descriptors(data, npages, block=4096):
+    """offset of the page descriptor array of a diskdump file with `npages` dumped pages
+    (24-byte records: offset u64, size u32, flags u32, page_flags u64; payloads are packed
+    from the first block boundary behind the array)"""
+    import struct
+    for off in range(block, len(data) - 48, block):
+        o1, s1 = struct.unpack_from("<QI", data, off)
+        o2 = struct.unpack_from("<Q", data, off + 24)[0]
+        if off + npages * 24 <= o1 < len(data) and o1 % block == 0 and 0 < s1 <= block and o2 == o1 + s1:
+            return off
+    raise RuntimeError("page descriptor array not found")
+
+
+def bad_pages_diskdump(d, name="ddbad"):
+    """A diskdump whose compressed pages cannot be turned into a page, for every
+    compression method compiled in: a well-formed stream that expands to less than a page,
+    one that expands to more, and a truncated stream - each followed by a good raw page,
+    so that every bad payload sits in its own file block.  Returns (path, bad addresses,
+    good addresses)."""
+    import struct
+    data = os.path.join(d, name + ".data")
+    bad, good, trunc_idx = [], [], []
+    a = 0x10000
+    idx = 0
+    with open(data, "w") as f:
+        for m in ("zlib", "snappy", "zstd"):
+            for body, kind in (("11*100", "short"), ("33*5000", "long"),
+                               (" ".join("%02x*16" % i for i in range(256)), "trunc")):
+                f.write("@%#x %s\n%s\n" % (a, m, body))
+                bad.append(a)
+                if kind == "trunc":
+                    trunc_idx.append(idx)
+                a += 0x1000
+                idx += 1
+                f.write("@%#x raw\n%02x*4096\n" % (a, 0x40 + idx))
+                good.append(a)
+                a += 0x1000
+                idx += 1
+    params = ("version = 6\narch_name = x86_64\nblock_size = 4096\nphys_base = 0\nmax_mapnr = 0x3000\n"
+              "sub_hdr_size = 1\n" + UTS + "nr_cpus = 1\nDATA = %s\n" % data)
+    path = _run("mkdiskdump", os.path.join(d, name + ".dump"), params)
+    buf = bytearray(open(path, "rb").read())
+    base = _find_descriptors(buf, idx)
+    for i in trunc_idx:
+        off, size, flags = struct.unpack_from("<QII", buf, base + 24 * i)
+        struct.pack_into("<I", buf, base + 24 * i + 8, max(1, size - 5))
+    with open(path, "wb") as f:
+        f.write(buf)
+    return path, bad, good
